@@ -402,6 +402,13 @@ func main() {
 			for _, k := range []int{0, 2, 3} {
 				c = append(c, explore.Config{Name: fmt.Sprintf("full cap=%d", k), MaxDepth: d2, MaxDev: -1})
 			}
+			// audit of the canonical form: the same search without state de-duplication
+			ad := 3
+			if th {
+				ad = 4
+			}
+			c = append(c, explore.Config{Name: "audit(no dedup) small cap=2", BuildName: "small cap=2", MaxDepth: ad + 1, MaxDev: -1, NoDedup: true})
+			c = append(c, explore.Config{Name: "audit(no dedup) full cap=2", BuildName: "full cap=2", MaxDepth: ad, MaxDev: -1, NoDedup: true})
 			return c
 		},
 		Budget: func(th bool) time.Duration {
